@@ -1,71 +1,291 @@
 package trzsz
 
-func verifNondetByte() byte
-func verifNondetBool() bool
-func verifNondetRange(lo, hi int) int
-func verifAssume(bool)
-func verifAssert(bool, string)
-func verifReach(string)
+// C06 — a trigger starts exactly one transfer; look-alikes and replays start none.
+// Triggers are generated from the grammar trz/tsz print (ESC 7 BEL ::TRZSZ:TRANSFER:<mode>:<ver>:<id>[:<port>] CR LF)
+// with symbolic prefix bytes, mode, version digits, id suffix digits and port digits; the real detector (through
+// the regexp model) must report exactly those fields.
 
-func zzDigit() byte {
+func zzDigit6() byte {
 	d := verifNondetByte()
 	verifAssume(d >= '0')
 	verifAssume(d <= '9')
 	return d
 }
 
-// positive grammar: prefix(2 symbolic bytes) ESC 7 BEL ::TRZSZ:TRANSFER:<mode>:<d>.<d>.<dd>:<13 digits>[:<port 4 digits>] CR LF
-func zzH_C06_positive() {
-	var buf []byte
-	p0, p1 := verifNondetByte(), verifNondetByte()
-	buf = append(buf, p0, p1, 0x1b, '7', 7)
-	buf = append(buf, "::TRZSZ:TRANSFER:"...)
-	mode := verifNondetByte()
-	verifAssume(mode == 'S' || mode == 'R' || mode == 'D')
-	v0, v1, v2, v3 := zzDigit(), zzDigit(), zzDigit(), zzDigit()
-	buf = append(buf, mode, ':', v0, '.', v1, '.', v2, v3, ':')
-	var id []byte
-	for i := 0; i < 11; i++ {
-		id = append(id, byte('0'+i%10))
+type zzTrig6 struct {
+	buf      []byte
+	mode     byte
+	ver      [3]uint32
+	id       []byte
+	port     int
+	hasPort  bool
+	trigAt   int // offset of "::TRZSZ"
+}
+
+// zzMakeTrigger appends one generated trigger to buf.
+func zzMakeTrigger(buf []byte, longID bool) zzTrig6 { return zzMakeTriggerX(buf, longID, false) }
+
+// plain = fixed mode, version and no port: only the id varies (used for histories)
+func zzMakeTriggerX(buf []byte, longID bool, plain bool) zzTrig6 {
+	var t zzTrig6
+	if plain {
+		buf = append(buf, "\x1b7\x07"...)
+		t.trigAt = len(buf)
+		buf = append(buf, "::TRZSZ:TRANSFER:S:1.1.5:"...)
+		t.mode, t.ver = 'S', [3]uint32{1, 1, 5}
+		for i := 0; i < 11; i++ {
+			t.id = append(t.id, byte('0'+i%10))
+		}
+		t.id = append(t.id, zzDigit6(), zzDigit6())
+		buf = append(buf, t.id...)
+		buf = append(buf, '\r', '\n')
+		t.buf = buf
+		return t
 	}
-	s0, s1 := zzDigit(), zzDigit()
-	id = append(id, s0, s1)
-	buf = append(buf, id...)
-	hasPort := verifNondetBool()
-	port := 0
-	if hasPort {
-		buf = append(buf, ':')
-		for i := 0; i < 4; i++ {
-			d := zzDigit()
+	buf = append(buf, 0x1b, '7', 7)
+	t.trigAt = len(buf)
+	buf = append(buf, "::TRZSZ:TRANSFER:"...)
+	t.mode = verifNondetByte()
+	verifAssume(t.mode == 'S' || t.mode == 'R' || t.mode == 'D')
+	buf = append(buf, t.mode, ':')
+	for c := 0; c < 3; c++ {
+		nd := 1
+		if c == 2 {
+			nd = verifNondetRange(1, 2)
+		}
+		v := uint32(0)
+		for i := 0; i < nd; i++ {
+			d := zzDigit6()
+			v = v*10 + uint32(d-'0')
 			buf = append(buf, d)
-			port = port*10 + int(d-'0')
+		}
+		t.ver[c] = v
+		if c < 2 {
+			buf = append(buf, '.')
+		}
+	}
+	buf = append(buf, ':')
+	if longID {
+		for i := 0; i < 11; i++ {
+			t.id = append(t.id, byte('0'+i%10))
+		}
+		t.id = append(t.id, zzDigit6(), zzDigit6())
+	} else {
+		n := verifNondetRange(1, 3)
+		for i := 0; i < n; i++ {
+			t.id = append(t.id, zzDigit6())
+		}
+	}
+	buf = append(buf, t.id...)
+	t.hasPort = verifNondetBool()
+	if t.hasPort {
+		buf = append(buf, ':')
+		nd := verifNondetRange(1, 5)
+		for i := 0; i < nd; i++ {
+			d := zzDigit6()
+			buf = append(buf, d)
+			t.port = t.port*10 + int(d-'0')
 		}
 	}
 	buf = append(buf, '\r', '\n')
-	in := make([]byte, len(buf))
-	copy(in, buf)
-	det := newTrzszDetector(false, false)
-	out, trig := det.detectTrzsz(buf, false)
+	t.buf = buf
+	return t
+}
+
+func zzPrefix6(n int) []byte {
+	var buf []byte
+	for i := 0; i < n; i++ {
+		buf = append(buf, verifNondetByte())
+	}
+	return buf
+}
+
+func zzCheckTrigger(trig *trzszTrigger, t zzTrig6) {
 	verifAssert(trig != nil, "trigger not detected")
 	if trig == nil {
 		return
 	}
-	verifAssert(trig.mode == mode, "mode")
-	verifAssert(trig.version[0] == uint32(v0-'0') && trig.version[1] == uint32(v1-'0') && trig.version[2] == uint32(v2-'0')*10+uint32(v3-'0'), "version")
-	verifAssert(len(trig.uniqueID) == 13, "id length")
-	verifAssert(trig.uniqueID[11] == s0 && trig.uniqueID[12] == s1, "id suffix")
-	verifAssert(trig.tunnelPort == port, "port")
-	verifAssert(trig.winServer == (s0 == '1' && s1 == '0'), "winServer")
-	verifAssert(len(out) == len(in)+2, "rewritten length")
-	// a second wrapper must not react to what is shown locally
-	det2 := newTrzszDetector(false, false)
-	_, trig2 := det2.detectTrzsz(out, false)
-	verifAssert(trig2 == nil, "rewritten trigger still triggers")
-	// replay of the same chunk: only tmux / windows ids are de-duplicated
-	_, trig3 := det.detectTrzsz(in, false)
-	if s1 == '0' && (s0 == '1' || s0 == '2') {
-		verifAssert(trig3 == nil, "repeated id started a second transfer")
-		verifReach("dedup")
+	verifAssert(trig.mode == t.mode, "mode")
+	verifAssert(trig.version[0] == t.ver[0], "version major")
+	verifAssert(trig.version[1] == t.ver[1], "version minor")
+	verifAssert(trig.version[2] == t.ver[2], "version patch")
+	verifAssert(trig.uniqueID == string(t.id), "unique id")
+	verifAssert(trig.tunnelPort == t.port, "port")
+	win := (len(t.id) == 1 && t.id[0] == '1') || (len(t.id) == 13 && t.id[11] == '1' && t.id[12] == '0')
+	verifAssert(trig.winServer == win, "windows-server flag")
+}
+
+func zzClone6(b []byte) []byte {
+	c := make([]byte, len(b))
+	copy(c, b)
+	return c
+}
+
+// client mode: exactly the advertised fields; shown locally in a form a second wrapper ignores; redraw suppression
+func zzH_C06_client() {
+	t := zzMakeTrigger(zzPrefix6(verifBound("PREFIX")), verifNondetBool())
+	in := zzClone6(t.buf)
+	det := newTrzszDetector(false, false)
+	out, trig := det.detectTrzsz(t.buf, false)
+	zzCheckTrigger(trig, t)
+	if trig == nil {
+		return
 	}
-	verifReach("positive")
+	// shown locally with every TRZSZ -> TRZSZGO: a second wrapper further along must not react
+	verifAssert(len(out) == len(in)+2, "local rendering: length")
+	det2 := newTrzszDetector(false, false)
+	out2, trig2 := det2.detectTrzsz(zzClone6(out), false)
+	verifAssert(trig2 == nil, "local rendering still triggers a second wrapper")
+	verifAssert(len(out2) == len(out), "second wrapper modified a non-trigger")
+	// the same chunk again (a redraw): only tmux / Windows ids (13 digits ending 10 or 20) are remembered
+	_, trig3 := det.detectTrzsz(zzClone6(in), false)
+	if len(t.id) == 13 && t.id[12] == '0' && (t.id[11] == '1' || t.id[11] == '2') {
+		verifAssert(trig3 == nil, "redraw repeating a seen id started a second transfer")
+		verifReach("redraw-suppressed")
+	}
+	verifReach("client")
+}
+
+// relay mode: forwarded in a form the real client still recognises (same fields), marked as relayed
+func zzH_C06_relay() {
+	t := zzMakeTrigger(zzPrefix6(verifBound("PREFIX")), verifNondetBool())
+	in := zzClone6(t.buf)
+	tmux := verifNondetBool()
+	det := newTrzszDetector(true, tmux)
+	out, trig := det.detectTrzsz(t.buf, false)
+	want := t
+	if tmux && len(t.id) == 13 && t.id[11] == '0' && t.id[12] == '0' {
+		want.id = append(zzClone6(t.id[:11]), '2', '0') // re-tagged as seen through tmux
+	}
+	zzCheckTrigger(trig, want)
+	if trig == nil {
+		return
+	}
+	verifAssert(len(out) == len(in)+2, "relayed rendering: length")
+	marked := false
+	for i := 0; i+1 < len(out); i++ {
+		if out[i] == '#' && out[i+1] == 'R' {
+			marked = true
+		}
+	}
+	verifAssert(marked, "relayed trigger not marked")
+	// composition: the client's detector on the relay's output yields the same transfer
+	det2 := newTrzszDetector(false, false)
+	_, trig2 := det2.detectTrzsz(zzClone6(out), false)
+	zzCheckTrigger(trig2, want)
+	verifReach("relay")
+}
+
+// any proper truncation of a trigger (cut inside mode / version, or before 24 bytes) starts nothing and changes nothing
+func zzH_C06_truncated() {
+	t := zzMakeTrigger(nil, true)
+	full := t.buf[t.trigAt:]
+	// cut somewhere before the version is complete: "::TRZSZ:TRANSFER:M:d.d." has 23 bytes
+	cut := verifNondetRange(1, 22)
+	pre := zzPrefix6(verifBound("PREFIX"))
+	for _, c := range pre {
+		verifAssume(c != ':')
+	}
+	buf := append(pre, full[:cut]...)
+	pad := []int{0, 1, 9, 30}[verifNondetRange(0, 3)]
+	for i := 0; i < pad; i++ {
+		buf = append(buf, ' ')
+	}
+	in := zzClone6(buf)
+	det := newTrzszDetector(verifNondetBool(), false)
+	out, trig := det.detectTrzsz(buf, false)
+	verifAssert(trig == nil, "truncated trigger started a transfer")
+	verifAssert(len(out) == len(in), "non-trigger output modified")
+	for i := range in {
+		verifAssert(out[i] == in[i], "non-trigger output modified")
+	}
+	verifReach("truncated")
+}
+
+// scroll-back of a finished transfer: a trigger followed (beyond offset 40) by a transcript word starts nothing
+func zzH_C06_transcript() {
+	t := zzMakeTrigger(nil, true)
+	words := []string{"#CFG:", "Saved", "Cancelled", "Stopped", "Interrupted"}
+	w := words[verifNondetRange(0, 4)]
+	buf := t.buf
+	gap := verifNondetRange(0, 6)
+	for i := 0; i < gap; i++ {
+		buf = append(buf, ' ')
+	}
+	buf = append(buf, w...)
+	buf = append(buf, '\r', '\n')
+	in := zzClone6(buf)
+	det := newTrzszDetector(verifNondetBool(), false)
+	out, trig := det.detectTrzsz(buf, false)
+	if len(t.buf)-t.trigAt+gap >= 40 {
+		verifAssert(trig == nil, "scroll-back of a finished transfer started a new one")
+		verifAssert(len(out) == len(in), "scroll-back output modified")
+		verifReach("suppressed")
+	} else {
+		verifReach("too-close") // a word that close is still inside the trigger's own line: not claimed
+	}
+}
+
+// an earlier (complete or partial) trigger literal in the same read does not change which trigger fires: the last one
+func zzH_C06_earlier() {
+	firstBuf := []byte("\x1b7\x07::TRZSZ:TRANSFER:R:1.1.3:0000000000310:1234\r\n")
+	cut := len(firstBuf)
+	if verifNondetBool() {
+		cut = 3 + verifNondetRange(17, 24)
+	}
+	second := zzMakeTrigger(zzClone6(firstBuf[:cut]), true)
+	det := newTrzszDetector(false, false)
+	_, trig := det.detectTrzsz(second.buf, false)
+	zzCheckTrigger(trig, second)
+	verifReach("earlier")
+}
+
+// histories: fresh ids fire, repeated tmux/Windows ids do not
+func zzH_C06_history() {
+	det := newTrzszDetector(false, false)
+	var seen [][]byte
+	for k := 0; k < verifBound("HIST"); k++ {
+		t := zzMakeTriggerX(nil, true, true)
+		verifAssume(t.id[12] == '0') // role suffixes trz/tsz generate: 00 plain, 10 Windows, 20 tmux
+		verifAssume(t.id[11] <= '2')
+		_, trig := det.detectTrzsz(t.buf, false)
+		remembered := t.id[12] == '0' && (t.id[11] == '1' || t.id[11] == '2')
+		repeated := false
+		for _, s := range seen {
+			if string(s) == string(t.id) {
+				repeated = true
+			}
+		}
+		if repeated && remembered {
+			verifAssert(trig == nil, "repeated id started a second transfer")
+			verifReach("repeat-suppressed")
+		} else {
+			zzCheckTrigger(trig, t)
+			verifReach("fresh")
+		}
+		if remembered {
+			seen = append(seen, t.id)
+		}
+	}
+}
+
+// tmux control-mode framing: without a tunnel (or without a port) the framed trigger starts nothing
+func zzH_C06_control() {
+	pane := zzDigit6()
+	pre := []byte("%output %")
+	pre = append(pre, pane, ' ')
+	t := zzMakeTrigger(pre, true)
+	tunnel := verifNondetBool()
+	det := newTrzszDetector(false, false)
+	_, trig := det.detectTrzsz(t.buf, tunnel)
+	if !tunnel || !t.hasPort {
+		verifAssert(trig == nil, "control-mode framed trigger started a transfer without a tunnel")
+		verifReach("control-vetoed")
+	} else {
+		zzCheckTrigger(trig, t)
+		if trig != nil {
+			verifAssert(trig.tmuxPrefix == string(pre), "control-mode prefix")
+		}
+		verifReach("control-tunnel")
+	}
 }
